@@ -89,6 +89,14 @@ class World:
 
         class SimClient(HttpBeaconClient):
             def get_task(self):
+                if st.get("pending_ret"):
+                    # the loop came round to the next check-in although a handler's returned callback was never sent
+                    cb, data = st["pending_ret"][0]
+                    world.violate("C07", "handler_result_not_sent",
+                                  f"client {k}: a handler returned callback ({cb}, {data[:16].hex()}..) for task "
+                                  f"#{st['tasks_received']}, the beacon loop went on to the next check-in without calling "
+                                  f"send_callback for it")
+                    st["pending_ret"] = []
                 st["phase"] = "get"
                 st["outgoing"] = ("get", world.snapshot_metadata(self), self.beacon_id)
                 t = super().get_task()
@@ -96,10 +104,25 @@ class World:
                 return t
 
             def send_callback(self, callback_id, data):
-                st["outgoing"] = ("post", [(int(callback_id), bytes(data))], self.beacon_id)
-                st["produced"].append((int(callback_id), bytes(data)))
-                r = super().send_callback(callback_id, data)
+                item = (int(callback_id), bytes(data))
+                if item in st.get("pending_ret", []):
+                    st["pending_ret"].remove(item)
+                st["outgoing"] = ("post", [item], self.beacon_id)
+                st["produced"].append(item)
+                before = getattr(self, "counter", None)
+                try:
+                    r = super().send_callback(callback_id, data)
+                except (_httpx.RequestError, _httpx.HTTPStatusError):
+                    raise          # what the simulated network did to this POST
+                except Exception as e:  # noqa: BLE001 - anything else is the client failing on its own
+                    world.violate("C07", "send_callback_raised", type(e).__name__,
+                                  f"client {k}: send_callback({int(callback_id)}, {len(data)} bytes) raised {e!r:.200} "
+                                  f"(not a network error)")
+                    raise
                 st["sent_counters"].append(self.counter)
+                if before is not None and not self.counter > before:
+                    world.violate("C07", "callback_counter_not_advancing",
+                                  f"client {k}: callback counter {before} -> {self.counter} across a send_callback")
                 return r
 
         for cmdname, hspec in (spec.get("methods") or {}).items():
@@ -123,6 +146,7 @@ class World:
             kind = hspec["kind"]
             from dissect.cobaltstrike.c_c2 import BeaconCallback
             if kind == "ret":
+                st.setdefault("pending_ret", []).append((int(hspec["cb"]), unhx(hspec["data"])))
                 return (BeaconCallback(hspec["cb"]), unhx(hspec["data"]))
             if kind == "send":
                 for cb, data in hspec["items"]:
@@ -180,6 +204,7 @@ class World:
                                          "late_regs": [], "objgen": 0})
         st["incarnations"] += 1
         st["metadata_snapshot"] = None
+        st["pending_ret"] = []
         if reuse_object and st["obj"] is not None:
             # the operator runs the SAME client object again (same beacon id, possibly other host details): whatever the
             # object registered or cached during its first life is still there, and must not leak into what it sends now
@@ -632,6 +657,29 @@ class World:
         return nb
 
     def _noise(self, nz):
+        if "replay" in nz:
+            # a genuine beacon message seen earlier, sent again with another verb or under a URI that merely contains the
+            # beacon URI: routing is by verb AND prefix, so this is an unrelated request although its payload is perfect
+            want_kind = nz["replay"] + "_req"
+            src = next((r for r in reversed(self.tap) if r.kind == want_kind and not r.corrupted and r.client is not None), None)
+            if src is None:
+                return
+            line, _, rest = src.wire.partition(b"\r\n")
+            method, _, tail = line.partition(b" ")
+            if nz["how"] == "verb":
+                others = [v for v in (b"HEAD", b"OPTIONS", b"PATCH", b"DELETE", b"GET", b"POST", b"PUT")
+                          if v not in (self.server.verb_get, self.server.verb_post)]
+                method = others[core.draw(self.run_seed, "noise", nz["at_us"]) % len(others)]
+            else:
+                tail = b"/zz" + tail
+            wire = method + b" " + tail + b"\r\n" + rest
+            try:
+                if self.server.classify(rc.parse_wire(wire)) is not None:
+                    return      # (a profile whose other route happens to match: not an unrelated request)
+            except Exception:
+                return
+            nz = dict(nz, wire=hx(wire), note="replay_" + nz["how"])
+            self.res.probes["noise_replayed_beacon_message"] += 1
         wire = unhx(nz["wire"])
         rw, inf = self.server.handle(wire, self.kernel.now, self.epoch0)
         ridx = len(self.tap)
@@ -696,6 +744,8 @@ class World:
                     self.res.log.log("client_rejected", kk, str(err))
                     if req is not None and 0 <= req <= 0x7FFFFFFF:
                         self.violate("C19", "valid_beacon_id_rejected", f"run() rejected beacon_id={req}: {err}")
+                    if req is None:
+                        self.violate("C19", "self_chosen_beacon_id_rejected", f"run() without beacon_id picked an id it rejects itself: {err}")
                     continue
                 if isinstance(err, ValueError) and "too long" in str(err):
                     st["rejected"] = str(err)
@@ -708,6 +758,9 @@ class World:
                     continue
                 self.violate("C07", "client_crashed", type(err).__name__,
                              f"client {kk} terminated with {type(err).__name__}: {err!r:.300} without a corrupting fault")
+            if a.done and err is None and not a.kill_requested:
+                self.violate("C19", "beacon_loop_returned",
+                             f"client {kk}: run() returned although nobody stopped the client (the beacon loop runs until interrupted)")
             req = spec["run"].get("beacon_id")
             if req is not None and st.get("rejected") is None and hasattr(st["obj"], "beacon_id"):
                 want = req - req % 2
